@@ -120,12 +120,17 @@ type Replica struct {
 	Idx    int
 	PeerId string
 	Dir    string
-	DB     anystore.DB
+	DB     anystore.DB // the real database (closed by World.Close)
+	Store  anystore.DB // what the replica's storages use (DB, or a wrapper around it)
 	Space  spacestorage.SpaceStorage
 	Acl    list.AclList
 	Tree   synctree.SyncTree
 	w      *World
 }
+
+// WrapDB, when set, is applied to the database of every any-store backed replica (index given) right after it is
+// opened: engine F installs its fault-injecting wrapper here.
+var WrapDB func(idx int, db anystore.DB) anystore.DB
 
 type World struct {
 	Backend  string // "mem" (default) or "anystore"
@@ -346,6 +351,10 @@ func (w *World) newReplica(i int) (*Replica, error) {
 		return nil, err
 	}
 	r := &Replica{Idx: i, PeerId: fmt.Sprintf("peer%d", i), Dir: dir, DB: db, w: w}
+	if WrapDB != nil {
+		db = WrapDB(i, db)
+	}
+	r.Store = db
 	r.Space, err = spacestorage.New(ctx, w.F.SpaceId, db)
 	if err != nil {
 		return nil, err
@@ -644,3 +653,59 @@ func cloneOSM(m *spacesyncproto.ObjectSyncMessage) *spacesyncproto.ObjectSyncMes
 	}
 	return c
 }
+
+// OpenImage opens a copy of a replica database directory (a crash image) and rebuilds space storage, ACL list
+// and the object tree from it, the way a restarted process would.
+func OpenImage(f *Fixture, dir string) (db anystore.DB, space spacestorage.SpaceStorage, acl list.AclList, tree objecttree.ObjectTree, err error) {
+	ctx := context.Background()
+	db, err = anystore.Open(ctx, filepath.Join(dir, "db"), newStoreCfg())
+	if err != nil {
+		return
+	}
+	space, err = spacestorage.New(ctx, f.SpaceId, db)
+	if err != nil {
+		return
+	}
+	aclSt, err := space.AclStorage()
+	if err != nil {
+		return
+	}
+	acl, err = list.BuildAclListWithIdentity(f.Keys, aclSt, recordverifier.NewValidateFull())
+	if err != nil {
+		return
+	}
+	st, err := space.TreeStorage(ctx, f.TreeRoot.Id)
+	if err != nil {
+		return
+	}
+	tree, err = objecttree.BuildObjectTree(st, acl)
+	return
+}
+
+// CopyDir copies the files of a replica database directory (db, -wal, -shm) into a new directory under scratch.
+func CopyDir(src, scratch string) (string, error) {
+	dst, err := os.MkdirTemp(scratch, "img-")
+	if err != nil {
+		return "", err
+	}
+	ents, err := os.ReadDir(src)
+	if err != nil {
+		return "", err
+	}
+	for _, e := range ents {
+		if e.IsDir() {
+			continue
+		}
+		b, err := os.ReadFile(filepath.Join(src, e.Name()))
+		if err != nil {
+			return "", err
+		}
+		if err := os.WriteFile(filepath.Join(dst, e.Name()), b, 0o644); err != nil {
+			return "", err
+		}
+	}
+	return dst, nil
+}
+
+// NewStoreCfg exposes the any-store configuration the simulator uses.
+func NewStoreCfg() *anystore.Config { return newStoreCfg() }
